@@ -995,7 +995,8 @@ impl Walrus {
         let mut entries_parsed = 0u32;
         let mut saw_tail = false;
 
-        // Set when the byte budget ends the batch inside a planned range: ranges planned after it
+        // Set when the byte budget ends the batch inside a planned range (an entry that does not fit
+        // the payload budget, or a range that was cut in front of / inside an entry): ranges planned after it
         // (later blocks, the tail) must then be left alone, or their entries would be delivered -
         // and the cursor moved past this block - while entries of this block are still pending
         let mut budget_exhausted = false;
@@ -1013,6 +1014,9 @@ impl Walrus {
                 }
                 // Try to read metadata header
                 if buf_offset + PREFIX_META_SIZE > buffer.len() {
+                    // The planned range was cut by the budget in front of this header: entries
+                    // of this block are still pending, so nothing planned after it may be parsed
+                    budget_exhausted = true;
                     break; // Not enough data for header
                 }
 
@@ -1041,6 +1045,8 @@ impl Walrus {
 
                 // Check if we have enough buffer space for the data
                 if buf_offset + entry_consumed > buffer.len() {
+                    // Same: the range ends inside this entry
+                    budget_exhausted = true;
                     break; // Incomplete entry
                 }
 
